@@ -11,7 +11,7 @@ CLAIMED = {
    technique=T, ref="4/C01"),
  "C05": dict(
    text="Proof for the leaf operations of the engine: Term.Equal (all 7 implementations against one interface contract), Predicate.Equal/Match/Clone, FactSet.Insert/InsertAll (set semantics, no-growth => subset), advanceIndexes (lexicographic successor with carry), MatchedVariables Insert/Complete/Clone, World AddFact/AddRule/ResetRules/Clone.",
-   note="Not yet under contract (listed in evidence as not_decided): Rule.Apply, combine/combine$1 (join enumeration) and World.Run/Run$1 (fixpoint loop) - they use goroutines and channels; so the least-fixpoint statement itself is not decided yet, only the operations it is built from.",
+   note="Rule.Apply, combine$1 (join enumeration), World.Run/Run$1 (fixpoint loop) and QueryRule are under contract for well-formedness, frames (the source fact set is never written; new facts only grow), arity agreement of every matched combination and 'nil verdict only when an iteration added nothing'. Not decided: completeness of the enumeration (every matching combination is produced) and minimality of the model - whole-history statements over the sequence of channel values, which the producer/consumer rule does not carry.",
    technique=T, ref="4/C05"),
  "C06": dict(
    text="Proof: every Eval of the operator table, Evaluate, the evaluation stack and the symbol-table functions they use are under contract; each row of the table is an ensures clause discharged for all operand values (64-bit wrap modelled exactly), together with every panic site (nil, index, type assertion, division, unhashable map key) in those functions. All 20 operator implementations are also verified against the interface-method contracts used by Evaluate.",
@@ -29,6 +29,10 @@ CLAIMED = {
    text="Proof: a panic-freedom sweep over every function under contract (95 functions): each nil dereference, index, slice bound, type assertion, division, unhashable map key, nil map write, explicit panic and panicking library precondition (ed25519 key/seed lengths) is an obligation proved under the invariants that decoding and the builders establish (wfToken, blockWF, termWF...).",
    note="Functions not yet under contract are not covered (Unmarshal's decode path, Authorize, printing, parser): listed in evidence. Out-of-memory and stack depth are not panics a contract can see. Dependencies are trusted to satisfy their assumed contracts.",
    technique=T, ref="4/C10"),
+ "C11": dict(
+   text="Proof (producer/consumer rule): the goroutine bodies combine$1 and World.Run$1 are under contract with channel clauses (every sent value satisfies the channel invariant, nothing is sent after a final value, at most one verdict, channel closed on return); Rule.Apply and World.Run are proved against them, with a stranding obligation at every return (the producer is known to have finished, or the buffer covers what it may still send). World.Run's nil verdict is proved to be sent only when an iteration added nothing and the fact count is below the limit; limit plumbing: WithWorldOptions/NewVerifier/AuthorizerFor/Authorizer are proved to hand the caller's options to every world.",
+   note="Interleavings are not modelled: a goroutine body is verified as a sequential function and the consumer sees its effects only at receives (sound for the clauses used: they talk about sent values and monotone state). Wall-clock behaviour of the deadline is context.WithTimeout's assumed contract. Not yet under contract: Authorize's mapping of limit errors to authorization failure.",
+   technique=T, ref="4/C11"),
  "C16": dict(
    text="Proof: the key-selection closures are proved against the statement (id present and registered -> that key; id present and unknown -> ErrNoPublicKeyAvailable, never the default; no id -> default or the error); newBiscuit stores the identifier given by the options; Append and Seal are proved to carry the parent's identifier (value semantics of *uint32).",
    note="Assumed: protobuf keeps the optional field across serialisation. Not yet under contract: AuthorizerFor's use of the selected key and Build's passing of the option (planned).",
